@@ -4,6 +4,7 @@ import SlogModel.Model.Frame
 import SlogModel.Model.Route
 import SlogModel.Model.Redact
 import SlogModel.Model.Ser
+import SlogModel.Model.Pack
 import SlogModel.Gen.Facts
 import Driver.Util
 
@@ -39,6 +40,8 @@ structure DState where
   frameCfg : Frame.Cfg := { cap := 0, soft := 0 }
   frame : Frame.St := {}
   serCfg : Ser.Cfg := { names := [], env := [], envNames := [], hidden := [], rewrites := [] }
+  packCfg : Pack.Cfg := { mode := .forward, maxBytes := 0, maxRecords := 0, tag := [] }
+  pack : Pack.St := {}
   routeParts : List Route.Part := []
   routeN : Nat := 0
   routePipes : List Bytes := []     -- merge keys of the pipelines, in creation order
@@ -220,6 +223,42 @@ def handleSer (st : DState) : List String → DState × String
     | none => (st, "bad-op")
   | _ => (st, "bad-op")
 
+def showChunk (c : Pack.Cfg) : Option Pack.Chunk → String
+  | none => "none"
+  | some k => s!"chunk k={k.idx} n={k.numRecords} payload={hex (Pack.payload c k)}"
+
+def parseMode : String → Option Pack.Mode
+  | "f" => some .forward
+  | "p" => some .packed
+  | "c" => some .compressed
+  | "d" => some .datadog
+  | _ => none
+
+def handlePack (st : DState) : List String → DState × String
+  | ["cfg", m, maxB, maxR, tag] =>
+    match parseMode m, maxB.toNat?, maxR.toNat?, unhex tag with
+    | some m, some b, some r, some t =>
+      ({ st with packCfg := { mode := m, maxBytes := b, maxRecords := r, tag := t }, pack := {} }, "ok")
+    | _, _, _, _ => (st, "bad-op")
+  | ["write", h] =>
+    match unhex h with
+    | none => (st, "bad-op")
+    | some bs =>
+      let (s', o) := Pack.write st.packCfg st.pack bs
+      ({ st with pack := s' }, showChunk st.packCfg o)
+  | ["flush"] =>
+    let (s', o) := Pack.flush st.packCfg st.pack
+    ({ st with pack := s' }, showChunk st.packCfg o)
+  | ["env", n, id, body] =>
+    match n.toNat?, unhex id, unhex body with
+    | some n, some id, some body => (st, hex (Pack.envelope st.packCfg n id body))
+    | _, _, _ => (st, "bad-op")
+  | "ids" :: suffix :: clocks =>
+    match unhex suffix, clocks.mapM (·.toNat?) with
+    | some sfx, some ts => (st, ",".intercalate (((Pack.IdGen.run {} ts).map (fun p => hex (Pack.fmtId p sfx)))))
+    | _, _ => (st, "bad-op")
+  | _ => (st, "bad-op")
+
 def handle (st : DState) (line : String) : DState × String :=
   match fields line with
   | "time" :: rest => (st, handleTime rest)
@@ -227,6 +266,7 @@ def handle (st : DState) (line : String) : DState × String :=
   | "frame" :: rest => handleFrame st rest
   | "route" :: rest => handleRoute st rest
   | "ser" :: rest => handleSer st rest
+  | "pack" :: rest => handlePack st rest
   | ["redact", h] =>
     match unhex h with
     | none => (st, "bad-op")
